@@ -245,6 +245,22 @@ pub struct RunCfg {
     pub recipient_coop: u32,
     /// freeze hash 0 at some point (C14)
     pub freeze: bool,
+    /// What runs inside the simulated process: "process" (real main()),
+    /// "wait_payment", "pay" (PayPaymentProvider directly), "watcher" (BlockWatcher).
+    #[serde(default = "default_mode")]
+    pub mode: String,
+    /// C19: raw option values sent in `init` (name -> value); when absent the
+    /// typed fields above are sent.
+    #[serde(default)]
+    pub raw_opts: Option<std::collections::BTreeMap<String, i64>>,
+    /// E2: number and states of parts that exist before the component is called
+    /// (0 pending, 1 failed, 2 complete).
+    #[serde(default)]
+    pub pre_parts: Vec<u8>,
+}
+
+fn default_mode() -> String {
+    "process".into()
 }
 
 impl RunCfg {
@@ -316,6 +332,9 @@ pub fn base_cfg(rng: &mut Rng, profile: &str) -> RunCfg {
         backpressure: false,
         recipient_coop: 800,
         freeze: false,
+        mode: "process".into(),
+        raw_opts: None,
+        pre_parts: Vec::new(),
     }
 }
 
